@@ -56,6 +56,19 @@ leaves the dimensions refined so far ([None, 3] + [5, 4] raises and leaves [5, 3
 C06-merge-shapes-atomic.diff computes all merged dimensions before writing any (keeps the documented in-place update:
 502 _core tests pass; a first attempt that merged into a copy broke test_merge_shapes_modifies_value_shape_in_place).
 
+PROPOSED FIXES for the remaining known findings (not applied; each validated on a scratch worktree: 938 tests of _core,
+_graph_containers, _convenience, serde, traversal and passes/common pass, and both checks run against the patched tree):
+  * C06-graph-ctor-validate-first.diff (+ C06-graph-ctor-demo.py): Graph.__init__ validates inputs, outputs,
+    initializers and nodes (same order, same exception types as the constructor would fail with) before adopting
+    anything.  The repaired branch of the model (graph_new_reject / first_bad_init in Model.v, switch SGraphNew) mirrors it
+    exactly: with VERIF_C01_FIXED=SGraphNew the tie shows zero mismatches on the patched tree.
+  * C06-replace-all-uses-validate-first.diff (+ demo): convenience.replace_all_uses_with validates every pair first,
+    tracking the ownership changes earlier pairs make; 917 rejected and 616 accepted calls of the oracle stream on the
+    patched tree: no change after a rejection, none rejected midway.
+  * conv-replace-nodes-and-values-not-atomic stays known without a patch: an up-front check would have to re-implement
+    Graph.remove(safe=True)'s safety analysis on the state AFTER the replacement, insert_after's checks and the pair
+    simulation above, plus the Value.name/type/shape propagation that can itself raise - not small.
+
 READING.  "every observable property of every reachable IR object" = the accessors of C01's observe_at list for every
 object the history ever created (a superset of the reachable ones), plus object counts.  Hidden state (ref counters,
 name-authority sets) is part of the model-side theorem only; a rejected call that corrupts only hidden state is still
